@@ -79,8 +79,8 @@ check("C03", "transactions are all-or-nothing", [
        "<=3 ops over 2 keys, optional pre-existing key, buffer reuse on/off"),
     ob("VerifC03_FailedCommitNoTrace", "pkg/engine", "a commit that fails because one value does not fit a log record (symbolic position, size within [-20,+1] of the limit) leaves no trace, also not after a later write, close and reopen",
        "3-entry transaction, one oversized entry at position 0..2", reach=("committed", "failed")),
-    ob("VerifC03_CrashInCommit", "pkg/engine", "commit of 2-3 puts, the process dies at any file-system step of the commit (both crash models, torn in-flight write): after recovery all keys of the transaction or none; an acknowledged commit completely. Shapes: small values; values filling two log records completely (batch at the log buffer's capacity)",
-       "2-3 keys; crash at every simfs operation inside begin..commit; torn lengths: every length <=24 bytes else 8 representatives; record-filling values with d in 0..1", q={"budget_s": 300}),
+    ob("VerifC03_CrashInCommit", "pkg/engine", "commit of 2-3 puts, the process dies at any file-system step of the commit (both crash models, torn in-flight write): after recovery all keys of the transaction or none; an acknowledged commit completely. Shapes: small values; values filling two log records completely (batch at the log buffer's capacity); a 40 KB transaction behind a 30 KB write still pending in the log buffer (sync modes none/batch: all-or-nothing only, survival of the acknowledged commit is not promised there)",
+       "2-3 keys; crash at every simfs operation inside begin..commit; torn lengths: every length <=24 bytes else 8 representatives; record-filling values with d in 0..1; pending-buffer shape with sync mode none or batch", q={"budget_s": 300}),
     ob("VerifC03_CommitVsReader", "pkg/engine", "a committing transaction (2 keys) vs. a reader doing two plain gets in either order or inside a read-only transaction: first read new => second read new; a read-only transaction sees one state",
        "2 threads, preemption bound 1", "preemption bound 2", q=P1, t=P2, no_validate=True),
 ], [SIMFS, CLOCK, HASH, BLOOM, RAND, LOG, TIERA], [])
@@ -231,8 +231,8 @@ check("C19", "the network API behaves like the embedded API", [
     ob("VerifC19_TxHandles", "pkg/grpc/service", "transaction handle lifecycle through the service handlers", "1 transaction", q=P1, no_validate=True),
     ob("VerifC19_ScanOptions", "pkg/grpc/service", "Scan / TxScan with a symbolic prefix, suffix, prefix+suffix, start/end range or nothing and limit 0..2 over three symbolic two-byte keys (memtable + SSTable, one possibly deleted): streamed result = embedded view under the documented filter",
        "3 keys, 1-byte filters, limit 0..2, preemption bound 0 (Begin's worker goroutine)", q={"preempt": 0}, no_validate=True),
-    ob("VerifC19_BatchWriteLimits", "pkg/grpc/service", "BatchWrite with a valid batch or one violating a documented limit (empty key, 4097-byte key, unknown operation, 1001 operations) at a symbolic position: valid => effect of the embedded batch; rejected => error, no effect, database lock free, later Put and Scan complete",
-       "2 operations (1001 for the size limit), 5 conditions x 2 positions"),
+    ob("VerifC19_BatchWriteLimits", "pkg/grpc/service", "BatchWrite with a valid batch or one violating a documented limit (empty key, 4097-byte key, unknown operation, a value above the value limit, 1001 operations) at a symbolic position: valid => effect of the embedded batch; rejected => error, no effect, database lock free, later Put and Scan complete",
+       "2 operations (1001 for the size limit), 6 conditions x 2 positions; the value limit is the server's own field scaled down from 10 MiB to 8 bytes"),
 ], [SIMFS, CLOCK, HASH, BLOOM, JSON, LOG, "handlers are hand-listed; pb.KevoServiceServer's method set is compared with the listed handlers on every run"], ["wire encoding", "interceptors", "TLS", "GetStats, Compact (no embedded counterpart with observable data effect)"], method_sets=[SERVICE])
 
 check("C20", "configuration is validated and persists", [
